@@ -7,11 +7,13 @@ import vlib
 
 def violated_line(r):
     """trace line (1-based index into the validated file) at which TLC stopped"""
+    if r.violated:
+        m = re.findall(r"/\\ l = (\d+)", r.out)
+        line = int(m[-1]) - 1 if m else 1
+        return max(line, 1), f"invariant {', '.join(r.violated)} violated after trace line {max(line,1)}"
     if r.rejected:
         return int(r.rejected[0][0]), f"first unexplained event: {r.rejected[0][1][:1200]}"
-    m = re.findall(r"/\\ l = (\d+)", r.out)
-    line = int(m[-1]) - 1 if m else 1
-    return max(line, 1), f"invariant {', '.join(r.violated)} violated after trace line {max(line,1)}"
+    return 1, "rejected"
 
 
 def validate_runs(ctx, runs, label, module, cfg, owns=None, key=None, nontrivial=None, timeout=600, heap="4g", max_rounds=10):
